@@ -144,68 +144,86 @@ Section Composition.
     Qed.
   End Durable.
 
-  (* ---------------------------------------------------------------- exactly once *)
-  Section ExactlyOnce.
+  (* ---------------------------------------------------------------- processed exactly once *)
+  Section ProcessedOnce.
     Hypothesis node_state_is_replay : NodeStateIsReplay M.
-    Hypothesis seen_le_len : SeenLeLen M.
     Hypothesis proposal_appends : ProposalAppends M.
     Hypothesis proposal_entry : ProposalEntry M.
     Hypothesis log_from_requests : LogFromRequests M.
     Hypothesis ack_implies_committed : AckImpliesCommitted M.
-    Hypothesis handler_dedup : HandlerDedup M.
     Hypothesis marker_init : MarkerInit M.
     Hypothesis marker_set : MarkerSet M.
     Hypothesis marker_only : MarkerOnly M.
+    Hypothesis apply_skip : ApplySkip M.
     Hypothesis cmid_nonzero : CmidNonzero M.
     Hypothesis client_no_return : ClientNoReturn M.
-    Hypothesis earlier_requests_settled : EarlierRequestsSettled M.
-    Hypothesis handler_caught_up : HandlerCaughtUp M.
+    Hypothesis earlier_messages_settled : EarlierMessagesSettled M.
 
-    (* two committed copies of one post come from one request *)
-    Lemma copies_unique : forall s c i1 i2, copy_at M s c i1 -> copy_at M s c i2 -> i1 < i2 -> False.
+    (* between two copies of a post the log holds no entry of that session with another id, so a
+       node applying the later copy finds the marker equal to its id *)
+    Lemma later_copy_sees_marker : forall s c i1 i2, copy_at M s c i1 -> copy_at M s c i2 -> i1 < i2 ->
+      lastpost M (state_before M i2) s = c.
     Proof.
       intros s c i1 i2 H1 H2 Hlt.
       destruct (log_from_requests s c i1 H1) as (n1 & Hn1 & Hc1 & Hi1).
       destruct (log_from_requests s c i2 H2) as (n2 & Hn2 & Hc2 & Hi2).
-      destruct (lt_eq_lt_dec n1 n2) as [[Hn|Hn]|Hn].
-      - (* n1 earlier: the retry n2 has seen the copy at i1 and every later entry of s up to
-           its view carries c: its marker comparison succeeds, it cannot have proposed *)
-        assert (Hseen : r_seen M s n2 = r_len M s n2) by (apply (handler_caught_up s n1 n2 Hn Hn2); congruence).
-        assert (Hi1seen : i1 < r_seen M s n2).
-        { rewrite Hseen. apply (earlier_requests_settled s n1 n2 i1 Hn Hn2 Hi1). }
-        apply (handler_dedup s n2 i2 Hn2 Hi2). rewrite Hc2. unfold seen_state.
-        destruct H1 as (e1 & He1 & Hk1).
-        apply (marker_stays marker_set marker_only _ s c i1 e1).
-        + rewrite nth_error_firstn_lt by exact Hi1seen. exact He1.
-        + exact Hk1.
-        + intros j e' c' Hij Hj Hk'.
-          apply nth_error_firstn_some in Hj. destruct Hj as [Hjseen Hj].
-          destruct (N.eq_dec c' c) as [|Hcc]; [assumption|exfalso].
-          destruct (log_from_requests s c' j (ex_intro _ e' (conj Hj Hk'))) as (n' & Hn' & Hc' & Hi').
-          destruct (lt_eq_lt_dec n' n1) as [[Hq|Hq]|Hq].
-          * pose proof (earlier_requests_settled s n' n1 j Hq Hn1 Hi').
-            pose proof (proposal_appends s n1 i1 Hn1 Hi1). lia.
+      destruct H1 as (e1 & He1 & Hk1). unfold state_before.
+      apply (marker_stays marker_set marker_only _ s c i1 e1).
+      - rewrite nth_error_firstn_lt by exact Hlt. exact He1.
+      - exact Hk1.
+      - intros j e' c' Hij Hj Hk'.
+        apply nth_error_firstn_some in Hj. destruct Hj as [Hji2 Hj].
+        destruct (N.eq_dec c' c) as [|Hcc]; [assumption|exfalso].
+        destruct (log_from_requests s c' j (ex_intro _ e' (conj Hj Hk'))) as (n' & Hn' & Hc' & Hi').
+        destruct (lt_eq_lt_dec n' n1) as [[Hq|Hq]|Hq].
+        + assert (Hd : r_cmid M s n' <> r_cmid M s n1) by congruence.
+          pose proof (earlier_messages_settled s n' n1 j Hq Hn1 Hd Hi').
+          pose proof (proposal_appends s n1 i1 Hn1 Hi1). lia.
+        + subst n'. congruence.
+        + destruct (lt_eq_lt_dec n' n2) as [[Hr|Hr]|Hr].
+          * assert (r_cmid M s n' = r_cmid M s n1) by (apply (client_no_return s n1 n' n2 Hq Hr Hn2); congruence).
+            congruence.
           * subst n'. congruence.
-          * destruct (lt_eq_lt_dec n' n2) as [[Hr|Hr]|Hr].
-            -- assert (r_cmid M s n' = r_cmid M s n1) by (apply (client_no_return s n1 n' n2 Hq Hr Hn2); congruence). congruence.
-            -- subst n'. congruence.
-            -- pose proof (earlier_requests_settled s n2 n' i2 Hr Hn' Hi2).
-               pose proof (proposal_appends s n' j Hn' Hi').
-               pose proof (seen_le_len s n2 Hn2).
-               pose proof (proposal_appends s n2 i2 Hn2 Hi2). lia.
-      - subst n2. rewrite Hi1 in Hi2. injection Hi2. lia.
-      - pose proof (earlier_requests_settled s n2 n1 i2 Hn Hn1 Hi2).
-        pose proof (proposal_appends s n1 i1 Hn1 Hi1). lia.
+          * assert (Hd : r_cmid M s n2 <> r_cmid M s n') by congruence.
+            pose proof (earlier_messages_settled s n2 n' i2 Hr Hn' Hd Hi2).
+            pose proof (proposal_appends s n' j Hn' Hi'). lia.
     Qed.
 
-    Theorem exactly_once_in_log : ExactlyOnceInLog M.
+    Lemma effective_is_copy : forall s c i, effective_at M s c i -> copy_at M s c i.
+    Proof. intros s c i (e & He & Hk & _). exists e. split; assumption. Qed.
+
+    (* below every copy there is a processed one (the first) *)
+    Lemma effective_exists : forall s c, c <> 0%N -> forall i, copy_at M s c i ->
+      exists i0, i0 <= i /\ effective_at M s c i0.
     Proof.
-      intros s n Hn Hack.
+      intros s c Hnz i. induction i as [i IH] using lt_wf_ind. intros (e & He & Hk).
+      destruct (N.eq_dec (lastpost M (state_before M i) s) c) as [Heq|Hne].
+      - unfold state_before in Heq.
+        destruct (marker_from_entry marker_init marker_only _ _ _ Heq Hnz) as (i' & e' & Hi' & Hk').
+        apply nth_error_firstn_some in Hi'. destruct Hi' as [Hlt Hi'].
+        destruct (IH i' Hlt (ex_intro _ e' (conj Hi' Hk'))) as (i0 & Hle & Heff).
+        exists i0. split; [lia|exact Heff].
+      - exists i. split; [lia|]. exists e. repeat split; assumption.
+    Qed.
+
+    Lemma later_copy_skipped : forall s c i j, c <> 0%N -> copy_at M s c i -> copy_at M s c j -> i < j ->
+      skipped_at M j.
+    Proof.
+      intros s c i j Hnz Hi Hj Hlt. pose proof (later_copy_sees_marker s c i j Hi Hj Hlt) as Hm.
+      destruct Hj as (e' & He' & Hk'). exists e'. split; [exact He'|].
+      apply (apply_skip _ e' s c Hk' Hnz Hm).
+    Qed.
+
+    Theorem processed_once : ProcessedOnce M.
+    Proof.
+      intros s n Hn Hack. pose proof (cmid_nonzero s n Hn) as Hnz.
       destruct (ack_durable proposal_entry ack_implies_committed marker_init marker_only cmid_nonzero s n Hn Hack) as [i Hi].
-      exists i. split; [exact Hi|]. intros j Hj.
-      destruct (lt_eq_lt_dec i j) as [[H|H]|H]; [exfalso|congruence|exfalso].
-      - apply (copies_unique _ _ _ _ Hi Hj H).
-      - apply (copies_unique _ _ _ _ Hj Hi H).
+      destruct (effective_exists s _ Hnz i Hi) as (i0 & _ & Heff).
+      exists i0. split; [exact Heff|]. intros j Hj Hne.
+      destruct (lt_eq_lt_dec j i0) as [[H|H]|H]; [exfalso|congruence|].
+      - pose proof (later_copy_sees_marker s _ j i0 Hj (effective_is_copy _ _ _ Heff) H) as Hm.
+        destruct Heff as (e & _ & _ & Hd). apply Hd, Hm.
+      - split; [exact H|]. apply (later_copy_skipped s _ i0 j Hnz (effective_is_copy _ _ _ Heff) Hj H).
     Qed.
 
     Theorem sender_order : SenderOrder M.
@@ -214,7 +232,8 @@ Section Composition.
       destruct (log_from_requests s _ i Hi) as (m & Hm & Hcm & Him).
       destruct (log_from_requests s _ i' Hi') as (m' & Hm' & Hcm' & Him').
       destruct (lt_eq_lt_dec m m') as [[H|H]|H].
-      - pose proof (earlier_requests_settled s m m' i H Hm' Him).
+      - assert (Hd : r_cmid M s m <> r_cmid M s m') by congruence.
+        pose proof (earlier_messages_settled s m m' i H Hm' Hd Him).
         pose proof (proposal_appends s m' i' Hm' Him'). lia.
       - subst m'. congruence.
       - exfalso. (* m' (id of n') before m (id of n), although n before n': the client returned to an id *)
@@ -242,38 +261,28 @@ Section Composition.
         + cbn in H. change (x :: firstn (S i) l = x :: (firstn i l ++ [e])). f_equal. apply IH, H.
     Qed.
 
-    Lemma in_nth : forall A (l : list A) x, In x l -> exists k, nth_error l k = Some x.
-    Proof. intros A l x H. apply In_nth_error, H. Qed.
-
     Theorem delivered_once : DeliveredOnce M.
     Proof.
-      intros s n Hn Hack.
-      destruct (exactly_once_in_log s n Hn Hack) as (i & (e & He & Hk) & Huniq).
-      exists i, e. split; [exact He|]. split; [exact Hk|].
-      intros j r Hij rest.
-      set (l := firstn (applied M j) (L M)).
-      assert (Hl : nth_error l i = Some e) by (unfold l; rewrite nth_error_firstn_lt by exact Hij; exact He).
-      assert (Hfi : firstn i l = firstn i (L M)).
-      { unfold l. rewrite firstn_firstn. f_equal. lia. }
-      pose proof (split_at _ l i e Hl) as Hsplit. rewrite Hfi in Hsplit.
-      split; [|split].
-      - unfold served. destruct (node_state_is_replay j) as [_ ->]. fold l.
+      intros s n Hn Hack. pose proof (cmid_nonzero s n Hn) as Hnz.
+      destruct (processed_once s n Hn Hack) as (i & Heff & Hothers).
+      pose proof (effective_is_copy _ _ _ Heff) as Hcopy.
+      destruct Heff as (e & He & Hk & Hd).
+      exists i, e. split; [exact He|]. split; [exact Hk|]. split; [|split].
+      - intros k Hki Hck. destruct (Hothers k Hck) as [Hlt _]; lia.
+      - intros k Hik Hck. apply (Hothers k Hck). lia.
+      - intros j r Hij.
+        set (l := firstn (applied M j) (L M)).
+        assert (Hl : nth_error l i = Some e) by (unfold l; rewrite nth_error_firstn_lt by exact Hij; exact He).
+        assert (Hfi : firstn i l = firstn i (L M)).
+        { unfold l. rewrite firstn_firstn. f_equal. lia. }
+        pose proof (split_at _ l i e Hl) as Hsplit. rewrite Hfi in Hsplit.
+        unfold served. destruct (node_state_is_replay j) as [_ ->]. fold l.
         rewrite Hsplit at 1. rewrite outs_of_app. rewrite filter_app. f_equal.
-        cbn [run]. cbn [fst snd]. rewrite filter_app. f_equal. f_equal.
+        cbn [run]. cbn [fst snd]. rewrite filter_app. unfold state_before. f_equal. f_equal.
         assert (Hs : firstn (S i) (L M) = firstn i (L M) ++ [e]) by (apply firstn_S_nth, He).
         rewrite Hs. rewrite state_of_snoc. reflexivity.
-      - intros e' Hin Hk'. apply in_nth in Hin. destruct Hin as [k Hkk].
-        apply nth_error_firstn_some in Hkk. destruct Hkk as [Hki Hkk].
-        assert (k = i) by (apply Huniq; exists e'; split; assumption). lia.
-      - intros e' Hin Hk'. apply in_nth in Hin. destruct Hin as [k Hkk].
-        assert (Hnl : nth_error l (S i + k) = Some e').
-        { rewrite Hsplit. rewrite nth_error_app2 by (rewrite firstn_length; lia).
-          rewrite firstn_length. assert (i < length (L M)) by (apply nth_error_Some; congruence).
-          replace (S i + k - Nat.min i (length (L M))) with (S k) by lia. exact Hkk. }
-        unfold l in Hnl. apply nth_error_firstn_some in Hnl. destruct Hnl as [_ Hnl].
-        assert (S i + k = i) by (apply Huniq; exists e'; split; assumption). lia.
     Qed.
-  End ExactlyOnce.
+  End ProcessedOnce.
 End Composition.
 
 (* ---------------------------------------------------------------- closed statements *)
@@ -284,12 +293,12 @@ Theorem composition_ack_durable : forall M,
   ProposalEntry M -> AckImpliesCommitted M -> MarkerInit M -> MarkerOnly M -> CmidNonzero M -> AckDurable M.
 Proof. exact ack_durable. Qed.
 
-Theorem composition_exactly_once : forall M, ContractWithoutCaughtUp M -> HandlerCaughtUp M ->
-  ExactlyOnceInLog M /\ SenderOrder M /\ DeliveredOnce M.
+Theorem composition_exactly_once : forall M, Contract M ->
+  ProcessedOnce M /\ SenderOrder M /\ DeliveredOnce M.
 Proof.
-  intros M (H1 & H2 & H3 & H4 & H5 & H6 & H7 & H8 & H9 & H10 & H11 & H12 & H13) Hc.
+  intros M ((H1 & H2 & H3 & H4 & H5 & H6 & H7 & H8 & H9 & H10 & H11) & H12).
   split; [|split].
-  - apply exactly_once_in_log; assumption.
+  - apply processed_once; assumption.
   - apply sender_order; assumption.
   - apply delivered_once; assumption.
 Qed.
@@ -297,31 +306,39 @@ Qed.
 (* ---------------------------------------------------------------- the hypotheses are satisfiable *)
 Ltac req2 n := destruct n as [|[|n]]; [| |cbn in *; lia].
 
-Lemma tiny_copy_at : forall log na nq cm ln sn ix ak c i,
-  copy_at (tiny log na nq cm ln sn ix ak) tt c i <-> nth_error log i = Some c.
+Lemma tiny_copy_at : forall sk log na nq cm ln sn ix ak c i,
+  copy_at (tiny sk log na nq cm ln sn ix ak) tt c i <-> nth_error log i = Some c.
 Proof.
   intros. unfold copy_at. cbn. split.
   - intros (e & He & Hk). injection Hk as ->. exact He.
   - intros H. exists c. split; [exact H|reflexivity].
 Qed.
 
-Lemma tiny_marker : forall log na nq cm ln sn ix ak,
-  let T := tiny log na nq cm ln sn ix ak in MarkerInit T /\ MarkerSet T /\ MarkerOnly T.
+Lemma tiny_marker_rules : forall sk log na nq cm ln sn ix ak,
+  let T := tiny sk log na nq cm ln sn ix ak in MarkerInit T /\ MarkerSet T /\ MarkerOnly T.
 Proof.
   intros. split; [|split].
   - intros s. reflexivity.
-  - intros st e s c H. cbn in *. injection H as _ ->. reflexivity.
-  - intros st e s H. cbn in *. destruct s. reflexivity.
+  - intros st e s c H. cbn in *. injection H as _ ->. unfold tiny_step.
+    destruct (sk && negb (N.eqb c 0) && N.eqb (tiny_marker st) c) eqn:Hc; cbn; [|reflexivity].
+    apply andb_prop in Hc. destruct Hc as [_ Hc]. apply N.eqb_eq, Hc.
+  - intros st e s H. cbn in *. destruct s. unfold tiny_step in *.
+    destruct (sk && negb (N.eqb e 0) && N.eqb (tiny_marker st) e); cbn in *; [congruence|reflexivity].
 Qed.
 
-Example tiny_ok_contract : ContractWithoutCaughtUp tiny_ok /\ HandlerCaughtUp tiny_ok.
+Lemma tiny_apply_skip : forall log na nq cm ln sn ix ak, ApplySkip (tiny true log na nq cm ln sn ix ak).
 Proof.
-  destruct (tiny_marker [5%N; 6%N] (fun b : bool => if b then 2 else 1) 2
+  intros log na nq cm ln sn ix ak st e s c Hk Hnz Hm. cbn in *. injection Hk as _ ->.
+  unfold tiny_step. apply N.eqb_neq in Hnz. rewrite Hnz. rewrite Hm. rewrite N.eqb_refl. reflexivity.
+Qed.
+
+Example tiny_ok_contract : Contract tiny_ok.
+Proof.
+  destruct (tiny_marker_rules true [5%N; 6%N] (fun b : bool => if b then 2 else 1) 2
               (fun n => match n with 0 => 5%N | _ => 6%N end) (fun n => n) (fun n => n)
               (fun n => Some n) (fun _ => true)) as (Hmi & Hms & Hmo).
-  split; [unfold ContractWithoutCaughtUp; repeat apply conj|].
+  split; [unfold ContractWithoutApplySkip; repeat apply conj|apply tiny_apply_skip].
   - intros i. split; destruct i; reflexivity.
-  - intros s n Hn. cbn. lia.
   - intros s n i Hn Hi. cbn in *. injection Hi as <-. lia.
   - intros s n i Hn Hi. destruct s. apply tiny_copy_at. cbn in Hi. injection Hi as <-.
     cbn in Hn. req2 n; reflexivity.
@@ -331,25 +348,23 @@ Proof.
     + injection H as <-. exists 1. repeat split; lia.
     + destruct i; discriminate.
   - intros s n Hn _. left. exists n. reflexivity.
-  - intros s n i Hn Hi. cbn in Hn. unfold seen_state. cbn. req2 n; cbn; discriminate.
   - exact Hmi.
   - exact Hms.
   - exact Hmo.
   - intros s n Hn. cbn in *. req2 n; discriminate.
   - intros s a b c Hab Hbc Hc. cbn in Hc. lia.
-  - intros s m n i Hmn Hn Hi. cbn in *. injection Hi as <-. lia.
-  - intros s m n Hmn Hn Hc. reflexivity.
+  - intros s m n i Hmn Hn _ Hi. cbn in *. injection Hi as <-. lia.
 Qed.
 
-(* ... and without HandlerCaughtUp the conclusion fails: everything else holds of [tiny_lagging],
-   whose log holds the acknowledged post twice (D14) *)
-Lemma tiny_lagging_contract : ContractWithoutCaughtUp tiny_lagging.
+(* the contract minus the apply rule holds of the D14 history on either machine; the log holds the
+   acknowledged post twice *)
+Lemma lagging_contract : forall sk, ContractWithoutApplySkip (lagging sk).
 Proof.
-  destruct (tiny_marker [5%N; 5%N] (fun _ : bool => 2) 2 (fun _ => 5%N) (fun n => n) (fun _ => 0)
+  intros sk.
+  destruct (tiny_marker_rules sk [5%N; 5%N] (fun b : bool => if b then 2 else 1) 2 (fun _ => 5%N) (fun n => n) (fun _ => 0)
               (fun n => Some n) (fun n => match n with 0 => false | _ => true end)) as (Hmi & Hms & Hmo).
-  unfold ContractWithoutCaughtUp; repeat apply conj.
-  - intros i. split; reflexivity.
-  - intros s n Hn. cbn. lia.
+  unfold ContractWithoutApplySkip; repeat apply conj.
+  - intros i. split; destruct i; reflexivity.
   - intros s n i Hn Hi. cbn in *. injection Hi as <-. lia.
   - intros s n i Hn Hi. destruct s. apply tiny_copy_at. cbn in Hi. injection Hi as <-.
     cbn in Hn. req2 n; reflexivity.
@@ -359,25 +374,47 @@ Proof.
     + injection H as <-. exists 1. repeat split; lia.
     + destruct i; discriminate.
   - intros s n Hn _. left. exists n. reflexivity.
-  - intros s n i Hn Hi. unfold seen_state. cbn. discriminate.
   - exact Hmi.
   - exact Hms.
   - exact Hmo.
   - intros s n Hn. cbn. discriminate.
   - intros s a b c Hab Hbc Hc _. reflexivity.
-  - intros s m n i Hmn Hn Hi. cbn in *. injection Hi as <-. lia.
+  - intros s m n i Hmn Hn Hd. exfalso. apply Hd. reflexivity.
 Qed.
 
-Theorem refuted_without_caught_up : exists M, ContractWithoutCaughtUp M /\ ~ HandlerCaughtUp M /\
-  TwoCopies M /\ ~ ExactlyOnceInLog M.
+Lemma lagging_two_copies : forall sk, TwoCopies (lagging sk).
 Proof.
-  exists tiny_lagging. split; [exact tiny_lagging_contract|]. split; [|split].
-  - intros H. specialize (H tt 0 1). cbn in H. assert (0 = 1) by (apply H; [lia|lia|reflexivity]). discriminate.
-  - exists tt, 5%N, 0, 1. split; [discriminate|]. split; [|split].
-    + apply tiny_copy_at. reflexivity.
-    + apply tiny_copy_at. reflexivity.
-    + exists 1. cbn. repeat split; lia.
-  - intros H. destruct (H tt 1) as (i & _ & Hu); [cbn; lia|reflexivity|].
-    assert (H0 : 0 = i) by (apply Hu, tiny_copy_at; reflexivity).
-    assert (H1 : 1 = i) by (apply Hu, tiny_copy_at; reflexivity). lia.
+  intros sk. exists tt, 5%N, 0, 1. split; [discriminate|]. split; [|split].
+  - apply tiny_copy_at. reflexivity.
+  - apply tiny_copy_at. reflexivity.
+  - exists 1. cbn. repeat split; lia.
+Qed.
+
+(* D14 after the repair: the log holds the acknowledged post twice, the contract holds, hence
+   (composition_exactly_once) it is processed once and delivered once on every node *)
+Example tiny_lagging_contract : Contract tiny_lagging /\ TwoCopies tiny_lagging.
+Proof.
+  split; [split; [apply lagging_contract|apply tiny_apply_skip]|apply lagging_two_copies].
+Qed.
+
+Example hypotheses_satisfiable : Contract tiny_ok /\ Contract tiny_lagging /\ TwoCopies tiny_lagging.
+Proof. split; [exact tiny_ok_contract|exact tiny_lagging_contract]. Qed.
+
+Theorem two_copies_processed_once : exists M, Contract M /\ TwoCopies M /\
+  ProcessedOnce M /\ SenderOrder M /\ DeliveredOnce M.
+Proof.
+  exists tiny_lagging. destruct tiny_lagging_contract as [Hc Ht].
+  split; [exact Hc|]. split; [exact Ht|]. apply composition_exactly_once, Hc.
+Qed.
+
+(* D14 before the repair: without the apply rule both copies are processed *)
+Theorem refuted_without_apply_skip : exists M, ContractWithoutApplySkip M /\ TwoCopies M /\ ~ ProcessedOnce M.
+Proof.
+  exists tiny_lagging_noskip. split; [apply lagging_contract|]. split; [apply lagging_two_copies|].
+  intros H. destruct (H tt 1) as (i & _ & Hothers); [cbn; lia|reflexivity|].
+  assert (Hns : forall j, j < 2 -> ~ skipped_at tiny_lagging_noskip j).
+  { intros j Hj (e & He & Hs). destruct j as [|[|j]]; [| |lia]; cbn in He; injection He as <-; cbn in Hs; discriminate. }
+  destruct (Nat.eq_dec i 0) as [->|Hi].
+  - destruct (Hothers 1) as [_ Hs]; [apply tiny_copy_at; reflexivity|discriminate|]. apply (Hns 1); [lia|exact Hs].
+  - destruct (Hothers 0) as [_ Hs]; [apply tiny_copy_at; reflexivity|congruence|]. apply (Hns 0); [lia|exact Hs].
 Qed.
